@@ -881,13 +881,23 @@ impl<'g, 's> LRTable<'g, 's> {
                                     // For LR parsing non-empty reductions are
                                     // preferred over empty...
                                     if let ParserAlgo::LR = self.settings.parser_algo {
-                                        // ... so remove all empty reductions.
-                                        actions.retain(
-                                            |x| !matches!(x, Action::Reduce(_, len) if *len == 0),
-                                        );
+                                        // ... so remove all empty reductions, but
+                                        // only if there is a non-empty one to
+                                        // prefer. A tie among empty reductions
+                                        // stays a conflict.
+                                        let nonempty = item.prod_len > 0
+                                            || actions.iter().any(
+                                                |x| matches!(x, Action::Reduce(_, len) if *len > 0),
+                                            );
+                                        if nonempty {
+                                            actions.retain(
+                                                |x| !matches!(x, Action::Reduce(_, len) if *len == 0),
+                                            );
+                                        }
 
-                                        if item.prod_len > 0 || actions.is_empty() {
-                                            // If current reduction is non-empty add it.
+                                        if item.prod_len > 0 || !nonempty {
+                                            // If current reduction is non-empty, or
+                                            // nothing is, add it.
                                             actions.push(new_reduce.clone())
                                         }
                                     } else {
